@@ -136,6 +136,16 @@ namespace trompeloeil
       call_params_type_t<Sig>& params)
     override
     {
+      return run(params);
+    }
+  private:
+    // The coroutine frame keeps its own copy of the tuple of references
+    // to the call's parameters. The tuple handed to call() is a local of
+    // mock_func and is gone when a suspended coroutine is resumed.
+    return_of_t<Sig>
+    run(
+      call_params_type_t<Sig> params)
+    {
       using coro_type = return_of_t<Sig>;
       using promise_type = typename std::coroutine_traits<coro_type>::promise_type;
       using value_type = coro_value_type_t<coro_type>;
@@ -148,7 +158,6 @@ namespace trompeloeil
       }
       co_return func(params);
     }
-  private:
     T func;
     std::shared_ptr<yield_expr_list<Sig>> yields;
   };
